@@ -131,7 +131,9 @@ func buildAlgSet[T comparable](c *core.Ctx, kind string, cm NamedCmp[T], members
 				a.S.Add(d.Wide(r))
 			}
 			a.S.Clear()
-			if r.Bool() || len(keep) == 0 {
+			if len(keep) == 0 {
+				// left exactly as Clear left it (not even an Add without arguments)
+			} else if r.Bool() {
 				a.S.Add(keep...)
 			} else {
 				for _, v := range keep {
@@ -422,7 +424,14 @@ func runAlgebraOn[T comparable](c *core.Ctx, d *Dom[T], kind string, cm NamedCmp
 	}
 	c.Note("%s(%s) pair %s: a=%v b=%v", kind, cm.Name, pk, ma, mb)
 
-	for _, op := range []string{"Intersection", "Union", "Difference"} {
+	// the three operations in a random order: the probes that follow each one
+	// (mutating and restoring the operands) would otherwise always stand between
+	// the way an operand was built and the second and third operation
+	ops := []string{"Intersection", "Union", "Difference"}
+	for i, j := range r.Perm(3) {
+		ops[i], ops[j] = ops[j], ops[i]
+	}
+	for _, op := range ops {
 		var want []T
 		switch op {
 		case "Intersection":
